@@ -226,5 +226,21 @@ def census_core(ctx, model):
             if seen != set(range(5)):
                 probs.append("variants covered: %s" % sorted(seen))
             ctx.ob("CEN-core", "core:Message::clone", not probs, "Message::clone maps every variant to itself with the cloned payload" if not probs else "; ".join(probs[:3]), loc_of(b.span))
+    # IntoArcSource impls (folded as identities) and the `combine` front function
+    n_ias = 0
+    for bid, b in P.bodies.items():
+        if bid.endswith("as combine::IntoArcSource>::into_arc_source"):
+            n_ias += 1
+            r = P.link(b.origin_local(0))
+            body_effects(P, b)
+            extra = [e for e in list(b.effects.values()) if e.kind not in ("alias", "other")]
+            ok = r == ("param", bid, 1) and not extra
+            ctx.ob("CEN-core", "core:IntoArcSource:%d" % n_ias, ok, "into_arc_source wraps its argument unchanged" if ok else "into_arc_source returns %s" % show(r)[:60], loc_of(b.span))
+        if bid == "combine::combine":
+            r = P.link(b.origin_local(0))
+            ok = r[0] == "call" and r[2] == "combine::Combine::combine" and r[3] == (("param", bid, 1),)
+            ctx.ob("CEN-core", "core:combine-fn", ok, "combine(sources) is sources.combine()" if ok else "combine() returns %s" % show(r)[:60], loc_of(b.span))
+    if any(bid.startswith("<(") for bid in P.bodies):
+        ctx.ob("CEN-core", "core:IntoArcSource:count", n_ias == 3, "%d IntoArcSource impls" % n_ias)
     for k, n in found.items():
         ctx.ob("CEN-core", "core:%s:present" % k, n == 1, "%d impl(s) of %s found" % (n, k))
